@@ -56,7 +56,23 @@ impl Real {
         let mut nb = vec![0u8; nonce.len() + 48];
         let no = (16 - (nb.as_ptr() as usize % 16)) % 16 + (ka * 7 + 3) % 16;
         nb[no..no + nonce.len()].copy_from_slice(nonce);
-        Real::new(kind, &kb[ko..ko + key.len()], &nb[no..no + nonce.len()])
+        if kalign % 2 == 1 {
+            Real::new_from_slices(kind, &kb[ko..ko + key.len()], &nb[no..no + nonce.len()])
+        } else {
+            Real::new(kind, &kb[ko..ko + key.len()], &nb[no..no + nonce.len()])
+        }
+    }
+    /// through the provided constructor NewCipher::new_from_slices
+    pub fn new_from_slices(kind: Kind, key: &[u8], nonce: &[u8]) -> Real {
+        match kind {
+            Kind::ChaCha8 => Real::C8(ChaCha8::new_from_slices(key, nonce).expect("lengths")),
+            Kind::ChaCha12 => Real::C12(ChaCha12::new_from_slices(key, nonce).expect("lengths")),
+            Kind::ChaCha20 => Real::C20(ChaCha20::new_from_slices(key, nonce).expect("lengths")),
+            Kind::Ietf => Real::Ietf(Ietf::new_from_slices(key, nonce).expect("lengths")),
+            Kind::XChaCha8 => Real::X8(XChaCha8::new_from_slices(key, nonce).expect("lengths")),
+            Kind::XChaCha12 => Real::X12(XChaCha12::new_from_slices(key, nonce).expect("lengths")),
+            Kind::XChaCha20 => Real::X20(XChaCha20::new_from_slices(key, nonce).expect("lengths")),
+        }
     }
     pub fn try_apply(&mut self, data: &mut [u8]) -> bool {
         with_real!(self, c, c.try_apply_keystream(data).is_ok())
